@@ -259,386 +259,6 @@ func vHist(windowType uint8) {
 
 func verifC08_HistCount() { vHist(CountBased) }
 func verifC08_HistTime()  { vHist(TimeBased) }
-
-// ---------------------------------------------------------------------------
-// Refinement step (count-based window): ONE operation from an ARBITRARY
-// well-formed state. The abstract state a is symbolic; the implementation state
-// is its concretisation gamma(a), built field by field (so the representation
-// invariant holds by construction). After the operation the outputs must agree
-// and the implementation state must again be gamma(reference post-state).
-// Together with the base case New(policy) = gamma(initial) this covers call
-// histories of any length within the window/permit bounds.
-// ---------------------------------------------------------------------------
-
-func vResultOf(k int64) CallResult {
-	switch k {
-	case 0:
-		return CallResultSuccess
-	case 1:
-		return CallResultSlow
-	}
-	return CallResultFailure
-}
-
-// vRing concretises a sequence of n results (oldest first) into a ring of the
-// given capacity: not full => stored from index 0, bucketIdx = n; full => any rotation.
-func vRing(label string, capacity int, results []CallResult) *CountBasedWindow {
-	n := len(results)
-	w := &CountBasedWindow{bucket: make([]CallResult, capacity)}
-	rot := 0
-	if n == capacity && capacity > 0 {
-		rot = verifChoose(label+".rotation", capacity)
-		w.bucketIdx = rot
-	} else {
-		w.bucketIdx = n
-	}
-	for i, r := range results {
-		w.bucket[(rot+i)%capacity] = r
-		w.total++
-		if r == CallResultSlow {
-			w.slow++
-		} else if r == CallResultFailure {
-			w.failure++
-		}
-	}
-	return w
-}
-
-// vRingContent reads a ring back as a sequence (oldest first) and checks its well-formedness.
-func vRingContent(w *CountBasedWindow) []CallResult {
-	capacity := len(w.bucket)
-	var seq []CallResult
-	var fails, slows uint32
-	start := 0
-	if int(w.total) == capacity {
-		start = w.bucketIdx
-	} else {
-		verifAssert(w.bucketIdx == int(w.total), "ring-not-full-means-index-equals-total")
-	}
-	for i := 0; i < capacity; i++ {
-		r := w.bucket[(start+i)%capacity]
-		if i < int(w.total) {
-			verifAssert(r != CallResultUnknown, "ring-slot-in-use")
-			seq = append(seq, r)
-			if r == CallResultFailure {
-				fails++
-			} else if r == CallResultSlow {
-				slows++
-			}
-		} else {
-			verifAssert(r == CallResultUnknown, "ring-slot-free")
-		}
-	}
-	verifAssert(w.failure == fails && w.slow == slows, "ring-counters-consistent")
-	return seq
-}
-
-func verifC08_RefineCount() {
-	p := vPolicy(CountBased)
-	vWallOnly = false
-	W := int(verifConcrete(int64(p.SlidingWindowSize), int64(verifBound("maxWindow"))))
-	P := int(verifConcrete(int64(p.PermittedNumberOfCallsInHalfOpen), int64(verifBound("maxPermitted"))))
-	nowFunc = vNow
-
-	// abstract pre-state
-	ref := &vRef{p: p}
-	ref.state = rClosed + verifChoose("pre.state", 3)
-	ref.episode = uint32(verifInt("pre.episode", 1, 1<<32-8))
-	ref.tMono = verifInt("pre.transitionTime", 0, 1<<42)
-	vMono = verifInt("now", 0, 1<<42)
-	verifAssume(vMono >= ref.tMono)
-
-	cb := &CircuitBreaker{policy: p, stateID: ref.episode}
-	verifSetField(&cb.transitTime, "wall", uint64(vHasMonotonic|(4000000000<<30)))
-	verifSetField(&cb.transitTime, "ext", ref.tMono)
-	var results []CallResult
-	switch ref.state {
-	case rClosed:
-		cb.state = StateClosed
-		n := verifChoose("pre.windowFill", W+1)
-		for i := 0; i < n; i++ {
-			results = append(results, vResultOf(verifInt("pre.result", 0, 2)))
-		}
-		cb.window = vRing("pre", W, results)
-		cb.numberOfCallsInHalfOpen = uint32(verifInt("pre.staleTrialCounter", 0, 1<<20)) // not meaningful outside HALF_OPEN
-	case rHalfOpen:
-		cb.state = StateHalfOpen
-		k := verifChoose("pre.trialsAdmitted", P+1)
-		m := verifChoose("pre.trialsRecorded", k+1)
-		minCalls := p.MinimumNumberOfCalls
-		if minCalls > uint32(P) {
-			minCalls = uint32(P)
-		}
-		// every evaluation leaves HALF_OPEN, so fewer than min(minimum, permitted) results are in
-		verifAssume(m == 0 || uint32(m) < minCalls)
-		for i := 0; i < m; i++ {
-			results = append(results, vResultOf(verifInt("pre.result", 0, 2)))
-		}
-		cb.window = vRing("pre", P, results)
-		cb.numberOfCallsInHalfOpen = uint32(k)
-		ref.admitted = uint32(k)
-	case rOpen:
-		cb.state = StateOpen
-		// the window of an OPEN breaker is whatever the episode that opened it left behind
-		n := verifChoose("pre.windowFill", W+1)
-		for i := 0; i < n; i++ {
-			results = append(results, vResultOf(verifInt("pre.result", 0, 2)))
-		}
-		cb.window = vRing("pre", W, results)
-		cb.numberOfCallsInHalfOpen = uint32(verifInt("pre.staleTrialCounter", 0, 1<<20))
-	}
-	for _, r := range results {
-		ref.win = append(ref.win, vCall{0, r})
-	}
-	preState := ref.state
-
-	// one operation
-	switch verifChoose("op", 2) {
-	case 0:
-		ok, tag := cb.AcquirePermission()
-		rok, rtag := ref.acquire()
-		verifAssert(ok == rok, "admission")
-		verifAssert(tag == rtag, "admission-tag")
-		if preState == rOpen && rok {
-			verifCover("open-to-half-open-trial-admitted")
-		}
-		if preState == rHalfOpen && !rok {
-			verifCover("half-open-call-rejected")
-		}
-		if preState == rHalfOpen && ref.state == rOpen {
-			verifCover("reopened-by-max-wait")
-		}
-	case 1:
-		stale := verifBool("staleTag")
-		tag := ref.episode
-		if stale {
-			tag = uint32(verifInt("otherEpisode", 0, 1<<32-1))
-			verifAssume(tag != ref.episode)
-			verifCover("stale-result")
-		} else {
-			// a result for the current episode exists only for a call admitted in it
-			verifAssume(preState == rClosed || (preState == rHalfOpen && uint32(len(results)) < ref.admitted))
-		}
-		hasErr := verifBool("hasErr")
-		d := time.Duration(verifInt("duration", 0, 1<<41))
-		cb.RecordResult(tag, hasErr, d)
-		ref.record(tag, hasErr, d)
-		if preState == rHalfOpen && ref.state == rClosed {
-			verifCover("closed-by-recovery")
-		}
-		if preState == rClosed && ref.state == rOpen {
-			verifCover("opened")
-		}
-	}
-
-	// alpha(post) == reference post-state
-	verifAssert(vImplState(cb) == ref.state, "state")
-	verifAssert(cb.stateID == ref.episode, "episode")
-	if ref.state != preState {
-		verifAssert(cb.transitTime.Sub(vNow()) == 0, "transition-time-is-now")
-	}
-	if ref.state == rHalfOpen {
-		verifAssert(cb.numberOfCallsInHalfOpen == ref.admitted, "trial-counter")
-	}
-	if ref.state != rOpen {
-		w := cb.window.(*CountBasedWindow)
-		capacity := W
-		if ref.state == rHalfOpen {
-			capacity = P
-		}
-		verifAssert(len(w.bucket) == capacity, "window-capacity")
-		seq := vRingContent(w)
-		verifAssert(len(seq) == len(ref.win), "window-length")
-		for i := range seq {
-			if i < len(ref.win) {
-				verifAssert(seq[i] == ref.win[i].res, "window-content")
-			}
-		}
-	}
-}
-
-// verifC08_Base: New(policy) is gamma(initial abstract state).
-func verifC08_Base() {
-	p := vPolicy(CountBased)
-	vWallOnly = false
-	vMono = verifInt("now", 0, 1<<42)
-	nowFunc = vNow
-	cb := New(p)
-	verifAssert(cb.state == StateClosed && cb.stateID == 1, "initial-state")
-	w := cb.window.(*CountBasedWindow)
-	verifAssert(uint32(len(w.bucket)) == p.SlidingWindowSize, "window-capacity")
-	verifAssert(len(vRingContent(w)) == 0, "initial-window-empty")
-	verifAssert(cb.transitTime.Sub(vNow()) == 0, "transition-time-is-now")
-}
-
-// ---------------------------------------------------------------------------
-// Time-based window. Time model for these harnesses (stated in the evidence):
-// a time.Time is its nanosecond reading (field ext); (time.Time).Sub, Add and
-// Truncate are replaced by the three functions below (int64-nanosecond model;
-// the real wall-clock code path multiplies and divides by 10^9 several times per
-// call and is out of solver reach). Readings stay below 2^42 ns.
-// ---------------------------------------------------------------------------
-
-func vExt(t time.Time) int64 { return verifGetField(&t, "ext").(int64) }
-
-func vSub(t, u time.Time) time.Duration { return time.Duration(vExt(t) - vExt(u)) }
-
-func vAdd(t time.Time, d time.Duration) time.Time {
-	verifSetField(&t, "ext", vExt(t)+int64(d))
-	return t
-}
-
-func vTruncate(t time.Time, d time.Duration) time.Time {
-	e := vExt(t)
-	verifSetField(&t, "ext", e-e%int64(d))
-	return t
-}
-
-type vBucket struct{ total, slow, failure uint32 }
-
-func verifC08_RefineTime() {
-	p := vPolicy(TimeBased)
-	vWallOnly = false
-	W := int(verifConcrete(int64(p.SlidingWindowSize), int64(verifBound("maxWindow"))))
-	P := int(verifConcrete(int64(p.PermittedNumberOfCallsInHalfOpen), int64(verifBound("maxPermitted"))))
-	nowFunc = vNow
-	const second = 1000000000
-
-	ref := &vRef{p: p}
-	ref.episode = uint32(verifInt("pre.episode", 1, 1<<32-8))
-	cb := &CircuitBreaker{policy: p, stateID: ref.episode}
-
-	inHalfOpen := verifBool("pre.halfOpen")
-	// Whole seconds are enumerated (window start fixed, every gap 0..2W+2 explored
-	// as a concrete value): the solver cannot decide the repeated division by 10^9
-	// over symbolic seconds within minutes. Nanoseconds within the second, the
-	// per-second counts, the policy and the call result stay symbolic.
-	b := int64(7)
-	nowSec := b + int64(verifChoose("now.secondsSinceWindowBegin", 2*W+3))
-	nowNs := verifInt("now.nanos", 0, second-1)
-	vSec, vNsec = nowSec, nowNs
-	vMono = nowSec*second + nowNs
-	var results []CallResult
-	if inHalfOpen {
-		ref.state = rHalfOpen
-		cb.state = StateHalfOpen
-		k := verifChoose("pre.trialsAdmitted", P+1)
-		m := verifChoose("pre.trialsRecorded", k+1)
-		minCalls := p.MinimumNumberOfCalls
-		if minCalls > uint32(P) {
-			minCalls = uint32(P)
-		}
-		verifAssume(m == 0 || uint32(m) < minCalls)
-		verifAssume(m < k) // a trial result is outstanding
-		for i := 0; i < m; i++ {
-			results = append(results, vResultOf(verifInt("pre.result", 0, 2)))
-		}
-		cb.window = vRing("pre", P, results)
-		cb.numberOfCallsInHalfOpen = uint32(k)
-		ref.admitted = uint32(k)
-		for _, r := range results {
-			ref.win = append(ref.win, vCall{0, r})
-		}
-	} else {
-		ref.state = rClosed
-		cb.state = StateClosed
-		w := &TimeBasedWindow{bucket: make([]timeBasedWindowBucket, W)}
-		verifSetField(&w.beginAt, "wall", uint64(vHasMonotonic|(4000000000<<30)))
-		verifSetField(&w.beginAt, "ext", b*second)
-		w.firstBucket = verifChoose("pre.firstBucket", W)
-		maxPer := int64(verifBound("maxCallsPerSecond"))
-		last := int64(-1)
-		for j := 0; j < W; j++ {
-			t := verifInt("pre.bucketTotal", 0, maxPer)
-			f := verifInt("pre.bucketFailures", 0, maxPer)
-			s := verifInt("pre.bucketSlow", 0, maxPer)
-			verifAssume(f+s <= t)
-			bk := &w.bucket[(w.firstBucket+j)%W]
-			bk.total, bk.failure, bk.slow = uint32(t), uint32(f), uint32(s)
-			w.total += uint32(t)
-			w.failure += uint32(f)
-			w.slow += uint32(s)
-			tc := int(verifConcrete(t, maxPer))
-			fc := int(verifConcrete(f, maxPer))
-			sc := int(verifConcrete(s, maxPer))
-			for c := 0; c < tc; c++ {
-				r := CallResultSuccess
-				if c < fc {
-					r = CallResultFailure
-				} else if c < fc+sc {
-					r = CallResultSlow
-				}
-				ref.win = append(ref.win, vCall{b + int64(j), r})
-			}
-			if tc > 0 {
-				last = int64(j)
-			}
-		}
-		cb.window = w
-		// the clock never runs backwards: now is not before the window start nor before any recorded call
-		verifAssume(nowSec >= b && nowSec >= b+last)
-	}
-
-	tag := ref.episode
-	if verifBool("staleTag") {
-		tag = uint32(verifInt("otherEpisode", 0, 1<<32-1))
-		verifAssume(tag != ref.episode)
-	}
-	hasErr := verifBool("hasErr")
-	d := time.Duration(verifInt("duration", 0, 1<<41))
-	preState := ref.state
-	cb.RecordResult(tag, hasErr, d)
-	ref.record(tag, hasErr, d)
-
-	verifAssert(vImplState(cb) == ref.state, "state")
-	verifAssert(cb.stateID == ref.episode, "episode")
-	if preState == rClosed && ref.state == rOpen {
-		verifCover("opened")
-	}
-	if ref.state != rClosed {
-		return
-	}
-	w := cb.window.(*TimeBasedWindow)
-	verifAssert(len(w.bucket) == W, "window-capacity")
-	expBegin := b
-	if preState == rHalfOpen {
-		expBegin = nowSec // fresh window, begins at the current whole second
-		verifCover("closed-by-recovery")
-	} else if tag == ref.episode && nowSec-b >= int64(W) {
-		expBegin = nowSec - int64(W) + 1
-		verifCover("evicted-by-time")
-		if nowSec-b >= 2*int64(W) {
-			verifCover("idle-gap-longer-than-two-windows")
-		}
-	}
-	verifAssert(vExt(w.beginAt) == expBegin*second, "window-begins-at-expected-second")
-	var sumT, sumS, sumF uint32
-	for j := 0; j < W; j++ {
-		bk := w.bucket[(w.firstBucket+j)%W]
-		var t, s, f uint32
-		for _, c := range ref.win {
-			if c.sec == expBegin+int64(j) {
-				t++
-				if c.res == CallResultFailure {
-					f++
-				} else if c.res == CallResultSlow {
-					s++
-				}
-			}
-		}
-		verifAssert(bk.total == t && bk.slow == s && bk.failure == f, "per-second-counts")
-		sumT, sumS, sumF = sumT+t, sumS+s, sumF+f
-	}
-	verifAssert(w.total == sumT && w.slow == sumS && w.failure == sumF, "window-totals")
-	verifAssert(int(sumT) == len(ref.win), "no-call-outside-the-window")
-}
-
-// ---------------------------------------------------------------------------
-// Concurrent callers: the breaker is OPEN with the wait elapsed; several threads
-// acquire and then record. Every schedule within the preemption bound: at most
-// `permitted` calls are admitted in the half-open episode, the final state is
-// what the recorded trial results imply, and the breaker's fields are race free.
-// ---------------------------------------------------------------------------
 func verifC08_Conc() {
 	permitted := uint32(verifChoose("permittedInHalfOpen", 2) + 1)
 	p := &Policy{FailureRateThreshold: 50, SlowCallRateThreshold: 100, SlidingWindowType: CountBased, SlidingWindowSize: 2,
@@ -654,9 +274,11 @@ func verifC08_Conc() {
 	cb.RecordResult(id, true, 0)
 	cb.RecordResult(id, true, 0)
 	verifAssert(cb.State() == StateOpen, "opened")
+	refused, openTag := cb.AcquirePermission() // still open: refused, and the tag names the open episode
+	verifAssert(!refused, "open-breaker-refuses")
 	vMono = int64(2 * time.Second) // the wait has elapsed
 
-	hoID := cb.stateID + 1 // admissions of the half-open episode carry this tag
+	hoID := openTag + 1 // admissions of the half-open episode carry the next tag
 	threads := verifBound("threads")
 	var admitted, failures, later, laterFails int
 	var mu sync.Mutex
